@@ -343,6 +343,11 @@ func (x *Exec) named(hint string, v *Value) *Value {
 }
 
 func (x *Exec) execAssign(s *ast.AssignStmt, st *State) *State {
+	if (s.Tok == token.ASSIGN || s.Tok == token.DEFINE) && len(s.Lhs) == len(s.Rhs) {
+		for _, r := range s.Rhs {
+			x.checkBigCopy(st, r)
+		}
+	}
 	if s.Tok != token.ASSIGN && s.Tok != token.DEFINE {
 		// op-assign
 		var op token.Token
@@ -1251,4 +1256,63 @@ func (x *Exec) runDefers(st *State) {
 		x.evalCall(st.defers[i], st)
 	}
 	st.defers = nil
+}
+
+// Ownership rule for math/big: a big.Int value (or a struct embedding one by value) owns its word
+// buffer. Copying such a value out of another live object by plain assignment or in a composite
+// literal makes two values share one buffer, so a later in-place operation on one corrupts the other.
+// Copies from a local variable of the function (a move of a temporary) and from call results are
+// allowed. The obligation is a safety-class obligation named ownership:bigint-copy.
+func (x *Exec) checkBigCopy(st *State, rhs ast.Expr) {
+	if x.dry > 0 || len(x.frames) != 1 || x.c == nil || x.c.Opts["ownership"] == "" {
+		return // opt-in per contract (`opt ownership bigint`), checked in the function itself only
+	}
+	t := x.typeOf(rhs)
+	if t == nil || !containsBigIntValue(t, 0) {
+		return
+	}
+	e := rhs
+	for {
+		p, ok := e.(*ast.ParenExpr)
+		if !ok {
+			break
+		}
+		e = p.X
+	}
+	switch v := e.(type) {
+	case *ast.Ident:
+		if obj, ok := x.fr().info.Uses[v].(*types.Var); ok && !obj.IsField() && obj.Parent() != nil && obj.Parent() != obj.Pkg().Scope() {
+			return // local variable (incl. parameters passed by value): a move
+		}
+	case *ast.SelectorExpr, *ast.IndexExpr:
+		// a field or element of another object: a copy that shares the buffer
+	case *ast.StarExpr:
+		if _, isCall := v.X.(*ast.CallExpr); isCall {
+			return // *f(): the pointee is a fresh temporary
+		}
+	default:
+		return // calls, literals, conversions
+	}
+	x.oblige(st, "ownership", "bigint-copy", False, rhs)
+}
+
+func containsBigIntValue(t types.Type, depth int) bool {
+	if depth > 3 {
+		return false
+	}
+	t = types.Unalias(t)
+	if n, ok := t.(*types.Named); ok && n.Obj().Pkg() != nil && n.Obj().Pkg().Path() == "math/big" && n.Obj().Name() == "Int" {
+		return true
+	}
+	if s, ok := t.Underlying().(*types.Struct); ok {
+		if n, ok := t.(*types.Named); ok && n.Obj().Pkg() != nil && !strings.HasPrefix(n.Obj().Pkg().Path(), modPath) {
+			return false // only structs of this module are looked into
+		}
+		for i := 0; i < s.NumFields(); i++ {
+			if containsBigIntValue(s.Field(i).Type(), depth+1) {
+				return true
+			}
+		}
+	}
+	return false
 }
